@@ -260,6 +260,11 @@ for _v in (True, False):
     for _bs in (1, 2, 10000):
         APIS.append((f"scan_batches_{_bs}", {"verify": _v}))
     APIS.append(("iter_records", {"verify": _v}))
+    # the same generator APIs, consumed in strict alternation with a second generator over the same
+    # Table object that uses a different filter, projection and verification setting: the answer of
+    # one call must not depend on what other calls are in flight on the handle
+    APIS.append(("scan_batches_1_il", {"verify": _v}))
+    APIS.append(("iter_records_il", {"verify": _v}))
 
 
 def api_family(api: str) -> str:
@@ -272,7 +277,7 @@ def run_api(t: Any, api: str, verify: bool, cols: Optional[List[str]], fd: Optio
             return "ok", t.scan(columns=cols, filter=fd, verify_checksums=verify)
         if api == "scan_par2":
             return "ok", t.scan(columns=cols, filter=fd, parallel=2, verify_checksums=verify)
-        if api.startswith("scan_batches_"):
+        if api.startswith("scan_batches_") and not api.endswith("_il"):
             bs = int(api.rsplit("_", 1)[1])
             out: List[Dict[str, Any]] = []
             for b in t.scan_batches(batch_size=bs, columns=cols, filter=fd, verify_checksums=verify):
@@ -282,6 +287,27 @@ def run_api(t: Any, api: str, verify: bool, cols: Optional[List[str]], fd: Optio
             return "ok", out
         if api == "iter_records":
             return "ok", list(t.iter_records(columns=cols, filter=fd, verify_checksums=verify))
+        if api.endswith("_il"):
+            if api == "scan_batches_1_il":
+                g1 = t.scan_batches(batch_size=1, columns=cols, filter=fd, verify_checksums=verify)
+                g2 = t.scan_batches(batch_size=1, columns=["k"], filter=None, verify_checksums=not verify)
+            else:
+                g1 = t.iter_records(columns=cols, filter=fd, verify_checksums=verify)
+                g2 = t.iter_records(columns=["k"], filter=None, verify_checksums=not verify)
+            out = []
+            done2 = False
+            while True:
+                try:
+                    x = next(g1)
+                except StopIteration:
+                    break
+                out.extend(x) if isinstance(x, list) else out.append(x)
+                if not done2:
+                    try:
+                        next(g2)
+                    except StopIteration:
+                        done2 = True
+            return "ok", out
         raise HarnessError(api)
     except HarnessError:
         raise
@@ -575,7 +601,9 @@ def check_filter(rep: Report, tb: Tbl, f: Tuple, cfgs: List[Tuple[str, bool, Opt
     heads = {"scan_par2": ["scan"], "scan": [],
              "scan_batches_10000": [], "scan_batches_2": ["scan_batches_10000"],
              "scan_batches_1": ["scan_batches_10000", "scan_batches_2"],
-             "iter_records": ["scan_batches_10000", "scan_batches_2", "scan_batches_1"]}
+             "iter_records": ["scan_batches_10000", "scan_batches_2", "scan_batches_1"],
+             "scan_batches_1_il": ["scan_batches_10000", "scan_batches_2", "scan_batches_1"],
+             "iter_records_il": ["scan_batches_10000", "scan_batches_2", "scan_batches_1", "iter_records", "scan_batches_1_il"]}
     for (api, verify, pn), (problem, rc, detail) in diffs.items():
         cands = [(h, verify, "all") for h in heads[api]] + [(h, verify, pn) for h in heads[api]] + [(api, verify, "all")]
         tgt = (api, verify, pn)
